@@ -49,6 +49,9 @@ class LabelCodec(object):
         if kind in "ifu":
             h = h + self.offset
         if kind == "u":            # unsigned integer labels (the axis is stored as uint16)
+            if self.mixed:
+                assert h % 2 == 0
+                return int(h) // 2
             return int(h)
         if kind == "i":
             if self.mixed:
